@@ -148,10 +148,10 @@ def climbed(cur, for_refinement):
             return cur
 
 
-def surgery_harness(op):
+def surgery_harness(op, max_up=4):
     def run(vm):
         ctx = vm.ctx
-        forest = Forest(vm)
+        forest = Forest(vm, max_up=max_up)
         cur = forest.node("SymbolicExpression", "stack-top")
         top = forest.grow(cur)
         ctx.inputs["shape"] = list(forest.shape)
@@ -432,3 +432,9 @@ def h_canary():
 def harnesses():
     return [surgery_harness("refinement"), surgery_harness("alternative"), surgery_harness("next_rule"), h_enter_exit(),
             h_except_if(), h_alternative(), h_next(), h_canary()]
+
+
+def harnesses_thorough():
+    """thorough tier: local shapes with up to 5 ancestors (19608 shapes per builder)"""
+    hs = harnesses()
+    return [surgery_harness(op, max_up=5) for op in ("refinement", "alternative", "next_rule")] + hs[3:]
